@@ -149,7 +149,7 @@ fn build_damaged(case: &Case, dir: &std::path::Path) -> Result<(std::path::PathB
         }
         Base::Fixed { layout, n, codec } => {
             let li = *layout as usize % layouts().len();
-            let ff = FixedFile { layout: li, recs: (0..(*n as usize).max(1)).map(|k| FRec { sec: 1_600_000_000 + k as i64, usec: 3, null: 0, pid: 7 + k as i32, typ: 6, serial: k as u32, full: 0, stale: 0 }).collect() };
+            let ff = FixedFile { layout: li, recs: (0..(*n as usize).max(1)).map(|k| FRec { sec: 1_600_000_000 + k as i64, usec: 3, null: 0, pid: 7 + k as i32, typ: 6, serial: k as u32, full: 0, stale: 0, addr: [0; 4] }).collect() };
             let fname = format!("zdamaged.{}", ff.lay().fname);
             let p = wrap(codec, &ff.render(), dir, &fname, &fname)?;
             let d = std::fs::read(&p).map_err(|e| e.to_string())?;
